@@ -132,8 +132,11 @@ class ConvexSpheropolyhedron(Shape3D):
 
     @volume.setter
     def volume(self, value):
-        scale = (value / self.volume) ** (1 / 3)
-        self._rescale(scale)
+        if value > 0:
+            scale = (value / self.volume) ** (1 / 3)
+            self._rescale(scale)
+        else:
+            raise ValueError("Volume must be greater than zero.")
 
     @property
     def radius(self):
